@@ -160,6 +160,27 @@ func TypeEnvShared(env map[string]*model.Type) *types.Env {
 	return te
 }
 
+// TypeEnvLayered: the same bindings as a chain of environments (types.Env.Derive): the names
+// alternate between an outer and an inner layer. (At the pinned commit Compile refuses such an
+// environment; a tree that accepts it must still check every name of every layer at invocation.)
+func TypeEnvLayered(env map[string]*model.Type) *types.Env {
+	outer := types.NewEnv()
+	c := NewTyCtx()
+	keys := sortedKeys(env)
+	for i, n := range keys {
+		if i%2 == 0 {
+			outer.Put(n, c.To(env[n]))
+		}
+	}
+	inner := outer.Derive()
+	for i, n := range keys {
+		if i%2 == 1 {
+			inner.Put(n, c.To(env[n]))
+		}
+	}
+	return inner
+}
+
 func (en *Engine) ValEnv(env map[string]*model.Val) *val.Env {
 	ve := val.NewEnv()
 	for _, n := range sortedValKeys(env) {
